@@ -19,7 +19,7 @@ Inductive fty :=
 | FStruct (cs : list fty)  (* node, validity, children *)
 | FNull.           (* node only *)
 
-Inductive ev := Pass | CursorErr | BoundsPanic | NullLenErr.
+Inductive ev := Pass | CursorErr | BoundsPanic | NullLenErr | ValidityPanic.
 
 Record st := { nodes : list (Z * Z); bufs : list (Z * Z) }.
 
@@ -44,25 +44,41 @@ Fixpoint next_buffers (k : nat) (body_len : Z) (s : st) : ev * st :=
             end
   end.
 
+(* ArrayDataBuilder::build / create_struct_array: when the node declares null_count > 0 the validity buffer is wrapped
+   with BooleanBuffer::new(buffer, 0, len), which asserts len <= 8 * buffer length                -> PANIC *)
+Definition validity_ok (n : Z * Z) (vb : option (Z * Z)) : bool :=
+  if 0 <? snd n then
+    match vb with
+    | Some b => as_usize (fst n) <=? Z.min (8 * as_usize (snd b)) (2^64 - 1)
+    | None => true
+    end
+  else true.
+Definition finish (n : Z * Z) (vb : option (Z * Z)) (r : ev * st) : ev * st :=
+  match r with
+  | (Pass, s) => if validity_ok n vb then (Pass, s) else (ValidityPanic, s)
+  | e => e
+  end.
+Definition first_buf (s : st) : option (Z * Z) := match bufs s with [] => None | b :: _ => Some b end.
+
 Fixpoint walk (t : fty) (body_len : Z) (s : st) : ev * st :=
   match t with
   | FNull => match next_node s with
              | None => (CursorErr, s)
              | Some ((len, nulls), s1) => if len =? nulls then (Pass, s1) else (NullLenErr, s1)
              end
-  | FPrim => match next_node s with None => (CursorErr, s) | Some (_, s1) => next_buffers 2 body_len s1 end
-  | FBin => match next_node s with None => (CursorErr, s) | Some (_, s1) => next_buffers 3 body_len s1 end
-  | FList c => match next_node s with None => (CursorErr, s) | Some (_, s1) =>
-                 match next_buffers 2 body_len s1 with (Pass, s2) => walk c body_len s2 | r => r end end
-  | FFsl c => match next_node s with None => (CursorErr, s) | Some (_, s1) =>
-                 match next_buffers 1 body_len s1 with (Pass, s2) => walk c body_len s2 | r => r end end
-  | FStruct cs => match next_node s with None => (CursorErr, s) | Some (_, s1) =>
+  | FPrim => match next_node s with None => (CursorErr, s) | Some (n, s1) => finish n (first_buf s1) (next_buffers 2 body_len s1) end
+  | FBin => match next_node s with None => (CursorErr, s) | Some (n, s1) => finish n (first_buf s1) (next_buffers 3 body_len s1) end
+  | FList c => match next_node s with None => (CursorErr, s) | Some (n, s1) =>
+                 match next_buffers 2 body_len s1 with (Pass, s2) => finish n (first_buf s1) (walk c body_len s2) | r => r end end
+  | FFsl c => match next_node s with None => (CursorErr, s) | Some (n, s1) =>
+                 match next_buffers 1 body_len s1 with (Pass, s2) => finish n (first_buf s1) (walk c body_len s2) | r => r end end
+  | FStruct cs => match next_node s with None => (CursorErr, s) | Some (n, s1) =>
                  match next_buffers 1 body_len s1 with
-                 | (Pass, s2) => (fix go (cs : list fty) (s : st) : ev * st :=
+                 | (Pass, s2) => finish n (first_buf s1) ((fix go (cs : list fty) (s : st) : ev * st :=
                                     match cs with
                                     | [] => (Pass, s)
                                     | c :: r => match walk c body_len s with (Pass, s') => go r s' | e => e end
-                                    end) cs s2
+                                    end) cs s2)
                  | r => r end end
   end.
 
